@@ -24,3 +24,8 @@ CLAIMED["C15"] = dict(
     text="Decides on every path of internal/hashmap the disciplines a linearizable table rests on: update function exactly once per Compute and never before a retry; callback and all slot/meta/link stores under the root-bucket lock with no unlock in between; resize-in-progress then table-identity re-check before any slot access; all locks released; resize migrates the table reloaded after winning the flag, publishes before clearing the flag, always clears it; lock-free Get uses atomic loads and double-checks the key; meta-before-pointer order; size +1/-1/0 exactly once; Range calls out only unlocked; iterators yield only alive, unexpired nodes. Does not decide linearizability or iteration consistency over schedules.",
     note=TB + "Assumes sync.Mutex/sync/atomic semantics and immutable node keys.",
     ref="DESIGN.md §4 C15")
+CLAIMED["C18"] = dict(
+    technique="static analysis: sibling agreement by expression normal form (increment vs frequency counter addressing for i=0..3), edge-dominance guards, constant/operand binding checks",
+    text="Decides the structural facts behind 'never under-counts' and 'admission follows estimates': increment and frequency address identical (word, nibble) counters as normalised expressions; block/blockMask/table-length agreement; 4-bit saturating add by exactly one in the right nibble; 4-bit masked minimum; whole-table halving with the 0x7777.. mask; zero/no-op before initialisation; admit's decision table (strictly greater, else 1/128 draw only for estimate >= threshold) and the candidate/victim binding and eviction choice at its call site. Does not decide the arithmetic theorem over all hashes.",
+    note=TB + "Assumes Go uint64 arithmetic and purity of hash/rehash.",
+    ref="DESIGN.md §4 C18")
